@@ -838,3 +838,84 @@ func ruleEnumGoNameUniq(c *Ctx, r *Report) {
 		r.Und("gogen.genGoEnumeratedTypes:value-name", c.Pos(f.Decl.Pos()), "the store of value names (map[int64]string) inside a loop was not found")
 	}
 }
+
+// ---- R-PRUNE-DESCEND (C14) ---------------------------------------------------------------------
+
+// rulePruneDescend: a GoStruct holds its child structs in four shapes — a struct pointer
+// (container), a map of struct pointers (keyed list), an ordered map (ordered-by-user list) and a
+// slice of struct pointers (unkeyed list). pruneBranchesInternal removes empty containers only
+// where it recurses, so each shape needs a recursive call on its elements; three of the four
+// having one and the fourth not is the contradiction this rule looks for.
+func rulePruneDescend(c *Ctx, r *Report) {
+	r.Rule("R-PRUNE-DESCEND", "pruneBranchesInternal calls itself on the children held in each of the four shapes a GoStruct uses: the struct pointer, the entries of a map (range over MapKeys/MapIndex), the entries of an ordered map (yreflect.RangeOrderedMap) and the entries of a slice (Index in a loop); a shape without a recursive call keeps the empty containers below it", 4)
+	f := c.MustFunc(r, "ygot", "pruneBranchesInternal")
+	if f == nil {
+		return
+	}
+	info := f.Info()
+	got := map[string]bool{}
+	var visit func(body ast.Node, inOM bool)
+	visit = func(body ast.Node, inOM bool) {
+		ast.Inspect(body, func(x ast.Node) bool {
+			call, ok := x.(*ast.CallExpr)
+			if !ok {
+				return true
+			}
+			if fn := Callee(info, call); fn != nil && fn.Origin() == f.Obj.Origin() && len(call.Args) == 2 {
+				// classify by where the value argument comes from.
+				shape := "struct-pointer"
+				if inOM {
+					shape = "ordered-map"
+				}
+				src := call.Args[1]
+				for depth := 0; depth < 4; depth++ {
+					id, ok := ast.Unparen(src).(*ast.Ident)
+					if !ok {
+						break
+					}
+					defs := allDefs(f, info.ObjectOf(id))
+					if len(defs) != 1 {
+						break
+					}
+					src = defs[0]
+					if recv, m, ok := reflectMethod(info, src); ok {
+						switch m {
+						case "MapIndex":
+							shape = "map"
+						case "Index":
+							shape = "slice"
+						case "Elem":
+							src = recv
+							continue
+						}
+					}
+				}
+				if recv, m, ok := reflectMethod(info, src); ok {
+					_ = recv
+					switch m {
+					case "MapIndex":
+						shape = "map"
+					case "Index":
+						shape = "slice"
+					}
+				}
+				got[shape] = true
+				return true
+			}
+			if FullName(Callee(info, call)) == P("internal/yreflect")+".RangeOrderedMap" {
+				for _, a := range call.Args {
+					if fl, ok := a.(*ast.FuncLit); ok {
+						visit(fl.Body, true)
+					}
+				}
+				return false
+			}
+			return true
+		})
+	}
+	visit(f.Decl.Body, false)
+	for _, shape := range []string{"struct-pointer", "map", "ordered-map", "slice"} {
+		r.Check(got[shape], "ygot.pruneBranchesInternal:descends:"+shape, c.Pos(f.Decl.Pos()), "recursive call on the children held in a "+shape,
+			"pruneBranchesInternal never calls itself on children held in a "+shape+": empty containers below that kind of field (e.g. created by BuildEmptyTree) survive PruneEmptyBranches")
+	}
+}
